@@ -85,6 +85,15 @@ CHECKS = {
         note="Trusted as C03 plus the end-to-end generator's reach. Known findings (known_findings.jsonl): row attribution of `recv.slice` without argument; a line inserted directly after an `in <pattern>` line.",
         technique="Lean 4 proof (lexer/row-counter lemmas) + differential streams + metamorphic layout edits at every boundary",
     ),
+    "C25": dict(
+        category="proof",
+        text="Lean: convertArguments (keyword maps modelled as lists in ARBITRARY order, Go map semantics) emits the same argument list for every iteration order — proved for any name-sorted permutation with distinct names — "
+             "and the list has the shape required, optional(is_default), rest(is_asterisk), trailing, required keywords, optional keywords(is_default). The model is compared with the REAL rbs2json binary (stand-in `ruby` emitting generated AST JSON) "
+             "on every generated overload; documents are converted repeatedly (byte-identical) and loaded by ti, which must accept k positional arguments exactly when the RBS signature allows k.",
+        design="DESIGN.md §4 C25",
+        note="Trusted: Lean kernel, allowed axioms, the binary-level comparison harness. Not modelled: convertType, the embedded Ruby script (replaced by a stand-in).",
+        technique="Lean 4 proof (permutation invariance via uniqueness of sorted permutations; shape by construction) + binary-level differential check + end-to-end arity check",
+    ),
 }
 
 PENDING_REASON = "check not built yet in this session (see DESIGN.md §4 for the planned Lean model and theorem); not claimed until its check exists"
